@@ -161,15 +161,37 @@ Definition n_cur (st : nstate) : option str := ps_cur (n_ps st).      (* current
 (* tokens still to be delivered: the measure of every termination argument *)
 Definition n_left (st : nstate) : nat := length (n_pend st) + length (ps_toks (n_ps st)).
 
+(* The recorded defect sites of the skeleton, each modelled in both forms: false = as in the
+   current source, true = after the proposed minimal fix (the harness decides by replaying the
+   site's witness document on the implementation). *)
+Record nfix : Type := mkFix {
+  fx_link : bool;             (* _parse_link_statement: `elif` + `else: token = require_next_token_ucase()` *)
+  fx_positions : bool;        (* _parse_positions: `else: raise` for a token that is neither ALL nor a number *)
+  fx_step0 : bool;            (* _parse_positions: a zero step is a parse error, not range()'s ValueError *)
+  fx_empty : bool;            (* _parse_nexus_stream: first token fetched with require_next_token *)
+  fx_taxlabels_eof : bool;    (* _parse_taxlabels_statement: first token fetched with require_next_token *)
+  fx_taxlabels_nodims : bool; (* TAXLABELS without DIMENSIONS NTAX: no limit instead of `len(..) >= None` *)
+  fx_tree_eof : bool;         (* _parse_tree_statement: `if tree is None: raise` *)
+  fx_untitled : bool;         (* _get_char_matrix: `cm.label is not None and ...` *)
+  fx_blockterm : bool;        (* _read_character_states: ';' in a non-interleaved row is a parse error *)
+  fx_datatype : bool;         (* _parse_characters_data_block: default symbols "0123456789" *)
+  fx_truncmatrix : bool;      (* _process_discrete_matrix_data: `if token != ';': raise` after the row loop *)
+  fx_charsetdup : bool        (* _parse_charset_statement: repeated name is a parse error *)
+}.
+
+Definition nfix_none : nfix := mkFix false false false false false false false false false false false false.
+Definition nfix_all : nfix := mkFix true true true true true true true true true true true true.
+
 Section Nexus.
 Variable upper : str -> str.
 Variable lower : str -> str.
 Variable dval : Z -> option Z.
 Variable sym_ok : Z -> bool.
 Variable is_float : str -> bool.
-(* which form of the two recorded hang sites the working tree has (DESIGN 5.2) *)
-Variable fix_link : bool.          (* _parse_link_statement: elif + else: require_next_token_ucase *)
-Variable fix_positions : bool.     (* _parse_positions: else: raise *)
+(* which form of each recorded defect site the working tree has (DESIGN 5.2) *)
+Variable fx : nfix.
+Let fix_link := fx_link fx.
+Let fix_positions := fx_positions fx.
 (* loop budget of every loop (each `while` starts with it) *)
 Variable F : nat.
 
@@ -484,7 +506,8 @@ Fixpoint taxlabels_loop (fuel : nat) (tok : option str) (st : nstate) (ti : nat)
            | Some _ => ROk st
            | None =>
              match n_ntax st with
-             | None => RErr TypeErr                       (* len(taxon_namespace) >= None *)
+             | None => if fx_taxlabels_nodims fx then ROk (tns_set_labels st ti (ls ++ [label]))
+                       else RErr TypeErr                  (* len(taxon_namespace) >= None *)
              | Some n => if zlen ls >=? n then RErr ParseErr      (* TooManyTaxaError *)
                          else ROk (tns_set_labels st ti (ls ++ [label]))
              end
@@ -496,7 +519,8 @@ Fixpoint taxlabels_loop (fuel : nat) (tok : option str) (st : nstate) (ti : nat)
   end.
 
 Definition parse_taxlabels (st : nstate) (ti : nat) : nr nstate :=
-  dn p <- next_token st ;; taxlabels_loop F (fst p) (snd p) ti.
+  dn p <- (if fx_taxlabels_eof fx then require_next_token st else next_token st) ;;
+  taxlabels_loop F (fst p) (snd p) ti.
 
 (* ------------------------------------------------------------------------------------------ *)
 (* _parse_taxa_block                                                                           *)
@@ -582,7 +606,8 @@ Fixpoint states_loop (fuel : nat) (nchar : Z) (first : option Z) (n : Z) (st : n
       dn p <- fetch (nth_prim L_states 0) None st ;;
       let '(tok, st1) := p in
       if tok_is tok "{" || tok_is tok "(" then RUnm
-      else if tok_is tok ";" then RErr OtherErr                   (* BlockTerminatedException escapes *)
+      else if tok_is tok ";" then
+        RErr (if fx_blockterm fx then ParseErr else OtherErr)     (* BlockTerminatedException escapes *)
       else match tok with
            | None => RErr TypeErr                                 (* `for c in None` *)
            | Some cs =>
@@ -606,7 +631,8 @@ Definition get_taxon (st : nstate) (ti : nat) (label : str) : nr (nat * nstate) 
     else ROk (length ls, tns_set_labels st ti (ls ++ [label]))
   end.
 
-Fixpoint matrix_loop (fuel : nat) (nchar : Z) (tok : option str) (st : nstate) (first : option nat) : nr nstate :=
+Fixpoint matrix_loop (fuel : nat) (nchar : Z) (tok : option str) (st : nstate) (first : option nat)
+  : nr (option str * nstate) :=
   match fuel with
   | O => RFuel
   | S f =>
@@ -632,7 +658,7 @@ Fixpoint matrix_loop (fuel : nat) (nchar : Z) (tok : option str) (st : nstate) (
              matrix_loop f nchar (fst p) (snd p) first'
       | _, _ => RUnm
       end
-    else ROk st
+    else ROk (tok, st)
   end.
 
 (* _parse_matrix_statement(block_title, link_title) *)
@@ -647,7 +673,9 @@ Definition parse_matrix (st : nstate) (block_title link_title : option str) : nr
       if n_interleave st2 then RUnm
       else match n_dtype st2 with
            | DOther => RUnm
-           | _ => dn p <- next_token st2 ;; matrix_loop F nc (fst p) (snd p) None
+           | _ => dn p <- next_token st2 ;;
+                  dn r <- matrix_loop F nc (fst p) (snd p) None ;;
+                  if fx_truncmatrix fx && negb (tok_is (fst r) ";") then RErr ParseErr else ROk (snd r)
            end
   | _, _ => RErr ParseErr
   end.
@@ -677,7 +705,10 @@ Fixpoint chars_loop (fuel : nat) (tok : option str) (st : nstate) (bt lt : optio
 
 Definition parse_characters_block (tok : option str) (st : nstate) : nr nstate :=
   dn st1 <- skip_to_semicolon st ;;
-  let dt := match n_dtype st1 with DOther => DOther | _ => DStandardEmpty end in
+  let dt := match n_dtype st1 with
+            | DOther => DOther
+            | _ => if fx_datatype fx then DOther else DStandardEmpty
+            end in
   dn st2 <- chars_loop F tok (upd_dtype st1 dt) None None ;;
   skip_to_semicolon st2.
 
@@ -749,7 +780,7 @@ Definition parse_tree_statement_nexus (st : nstate) (ti : nat) (m : mapper) : nr
                       (ps_nesting ps) (ps_complete ps) (ps_seen ps) m in
       dn res <- of_res (parse_tree_statement unit parse_len_unit lower default_ropts F ps1) ;;
       match res with
-      | (None, _) => RErr AttrErr                                 (* tree.label = tree_name on None *)
+      | (None, _) => RErr (if fx_tree_eof fx then ParseErr else AttrErr)   (* tree.label = tree_name on None *)
       | (Some _, ps2) =>
         let m' := ps_map ps2 in
         ROk (m', upd_trees (tns_set_labels (upd_tok st1 ps2 [] false) ti (m_ns m')) (n_trees st1 + 1))
@@ -814,7 +845,8 @@ Fixpoint find_mats (mats : list matrix) (t : str) (i : nat) : nr (list nat) :=
   | [] => ROk []
   | m :: r =>
     match m_label m with
-    | None => RErr AttrErr                                        (* cm.label.upper() on None *)
+    | None => if fx_untitled fx then find_mats r t (S i)
+              else RErr AttrErr                                   (* cm.label.upper() on None *)
     | Some l => dn rest <- find_mats r t (S i) ;;
                 ROk (if seqb (upper l) (upper t) then i :: rest else rest)
     end
@@ -902,7 +934,8 @@ Fixpoint positions_loop (fuel : nat) (maxp : Z) (tok : option str) (st : nstate)
                 else if negb (all_digits (tok_text tok4)) then RErr ParseErr
                 else
                   dn v <- pos_fetch tok4 st4 ;;
-                  if int_val (tok_text tok4) =? 0 then RErr ValueErr      (* range() arg 3 must not be zero *)
+                  if int_val (tok_text tok4) =? 0
+                  then RErr (if fx_step0 fx then ParseErr else ValueErr)  (* range() arg 3 must not be zero *)
                   else positions_loop f maxp (fst v) (snd v) bad
               else positions_loop f maxp tok3 st3 bad
             else RErr ParseErr
@@ -942,7 +975,8 @@ Definition parse_charset (st : nstate) (lt : option str) : nr nstate :=
       | None => RUnm
       | Some m =>
         let name := tok_text tok in
-        if existsb (seqb name) (m_sets m) then RErr ValueErr      (* "Character subset .. already defined" *)
+        if existsb (seqb name) (m_sets m)
+        then RErr (if fx_charsetdup fx then ParseErr else ValueErr)   (* "Character subset .. already defined" *)
         else ROk (upd_mats st3 (set_nth (n_mats st3) mi (mkMat (m_label m) (m_tns m) (m_rows m) (name :: m_sets m))))
       end.
 
@@ -1007,7 +1041,7 @@ Definition init_nstate (toks : list token * tend) : nstate :=
 Definition parse_nexus_stream (toks : list token * tend) : nr nstate :=
   dn p <- next_token (init_nstate toks) ;;
   match fst p with
-  | None => RErr AttrErr                                          (* token.upper() on None: empty source *)
+  | None => RErr (if fx_empty fx then ParseErr else AttrErr)      (* token.upper() on None: empty source *)
   | Some t =>
     if negb (seqb (upper t) (s_of "#NEXUS")) then RErr ParseErr   (* NotNexusFileError *)
     else outer_loop F (snd p)
@@ -1020,8 +1054,8 @@ End Nexus.
 Definition nexus_fuel (text : str) : nat := 2 * length text + 16.
 
 Definition nexus_read (upper lower : str -> str) (dval : Z -> option Z) (sym_ok : Z -> bool)
-           (is_float : str -> bool) (fix_link fix_positions : bool) (text : str) : nr nstate :=
-  parse_nexus_stream upper lower dval sym_ok is_float fix_link fix_positions (nexus_fuel text)
+           (is_float : str -> bool) (fx : nfix) (text : str) : nr nstate :=
+  parse_nexus_stream upper lower dval sym_ok is_float fx (nexus_fuel text)
                      (tokenize (nexus_cfg false) text).
 
 Definition ascii_upper (s : str) : str :=
